@@ -15,8 +15,16 @@ HARNESSES = [dict(name="session", pkg="./pkg/session/", test="TestVerifC17", fil
              dict(name="pppoe", pkg="./internal/pppoe/", test="TestVerifC17Callers", timeout=600,
                   files=[("internal/pppoe/zz_verif_c17_test.go", "harness/C17/zz_verif_c17_pppoe_test.go")])]
 MODEL_NEEDS_IMPL = True
-# No model variants: every recorded C17 finding is fixed in /repo (94649ad, c1f4ba1, 49433a1, d2827a3); the model is what HEAD does and a
-# regression to any of them is a VIOLATION.
+# Model variants: "repaired" = every recorded repair; "ha_install_unclaimed" = /repo HEAD's ipoe restoreFromHASync, which installs the
+# sessions synced from the formerly active node without MixedAccess and without a claim (only `A` ops of ripoe cases depend on it).
+# Every finding fixed in /repo (94649ad, c1f4ba1, 49433a1, d2827a3) is part of both variants: a regression there is a VIOLATION.
+VARIANTS = ["repaired", "ha_install_unclaimed"]
+
+
+def signature(case, impl, models):
+    if case.startswith("ripoe") and any(t[0] == "A" for t in case.split()[1:]) and impl == models.get("ha_install_unclaimed"):
+        return "ipoe-ha-promoted-session-without-claim"
+    return None
 RULE = ("seq: random sequential histories (1..40 ops) of Claim/Release/IsOwner/Lookup by 2..5 sessions of both protocols "
         "(plus rare foreign protocol strings, empty session ids, Owner.Key different from the claimed key) over 1..4 tuples "
         "drawn from a pool with colliding and non-colliding shard hashes, same MAC on different C-VLANs, VLAN 0/65535; "
@@ -223,7 +231,8 @@ def gen_cases(rng, tier, budget):
         cases += [who + " " + c for c in RESTORE_FIXED]
         for _ in range((budget // 40) if budget else (60 if quick else 1500)):
             cases.append(gen_restore(rng, who))
-    cases += ["ripoe H0 B X0", "ripoe H1 B N1 X1", "ripoe H0 B B X0", "ripoe X0 H0 B X0"]
+    cases += ["ripoe H0 B X0", "ripoe H1 B N1 X1", "ripoe H0 B B X0", "ripoe X0 H0 B X0",
+              "ripoe A0 X0", "ripoe X0 A0", "ripoe A0 B X0", "ripoe N1 A1 X1", "ripoe A2 N2 B X2"]
     for _ in range((budget // 40) if budget else (50 if quick else 500)):
         cases.append(gen_e2e(rng))
     for who in ("ipoe", "pppoe"):
@@ -293,7 +302,7 @@ def gen_restore(rng, who):
     """ownership across restarts: N = the real component creates (and checkpoints) a session, H (ipoe) = checkpointed
     half-established, X = the other protocol's side gets a packet, B = restart (new registry, component restored from the opdb)"""
     ts = rng.sample([0, 1, 2, 3], rng.choice([1, 1, 2]))
-    kinds = "NNXXB" + ("H" if who == "ripoe" else "")
+    kinds = "NNXXB" + ("HA" if who == "ripoe" else "")
     ops = []
     for _ in range(rng.randint(2, 7)):
         k = rng.choice(kinds)
@@ -429,7 +438,7 @@ def nontrivial(case, out):
         return True
     if case.startswith(("rpppoe", "ripoe")):
         t = case.split()[1:]
-        return "B" in t and any(x[0] in "NH" for x in t[:t.index("B")])     # a session of the real component lives through a restart
+        return ("B" in t and any(x[0] in "NHA" for x in t[:t.index("B")])) or any(x[0] == "A" for x in t)
     if case.startswith("ae2e"):
         t = case.split()[1:]
         return "V" in t and any(x[0] in "XO" or (x[0] in "DQSP" and i > 0) for i, x in enumerate(t[:len(t) - 1 - t[::-1].index("V")]))
@@ -548,7 +557,7 @@ def shrink(case):
 
 
 def distribution(cases, impl):
-    d = {"ae2e": 0, "ae2e_ops": 0, "ae2e_deliveries": 0, "ae2e_padt": 0, "ae2e_oper_terminate": 0,
+    d = {"ha_promotions": 0, "ae2e": 0, "ae2e_ops": 0, "ae2e_deliveries": 0, "ae2e_padt": 0, "ae2e_oper_terminate": 0,
          "ae2e_states_with_both_protocols_live_pending_eviction": 0, "ae2e_final_states_both_protocols_live": 0,
          "rpppoe": 0, "ripoe": 0, "restarts": 0, "restored_live_sessions_own_tuple": 0, "restored_live_sessions_without_owner": 0,
          "seq": 0, "conc": 0, "rconc": 0, "ipoe": 0, "pppoe": 0, "wgl": 0, "wgl_reject": 0, "e2e": 0, "e2e_ops": 0,
@@ -578,6 +587,7 @@ def distribution(cases, impl):
                 d["ae2e_final_states_both_protocols_live"] += both(res[-1])
             continue
         if t[0] in ("rpppoe", "ripoe"):
+            d["ha_promotions"] += sum(x[0] == "A" for x in t[1:])
             for op, r in zip(t[1:], o.split()):
                 if op == "B":
                     d["restarts"] += 1
